@@ -265,7 +265,7 @@ func runCheck(id, tier, repo, verif string, fn ruleFn) (code int) {
 		// holds on one of them holds. If no obligation (compared by rule and construct, instance numbers dropped) is
 		// violated on all the forms, each reported violation is an artefact of one form; the form with the fewest
 		// reports is taken and its remaining reports are discharged with a reference to the form on which they hold.
-		if !acquitted && len(evaluated) >= 2 {
+		if !acquitted && len(evaluated) >= 2 && os.Getenv("VERIF_NF_NOCOMBINE") == "" {
 			norm := func(k string) string { return instanceNo.ReplaceAllString(k, "") }
 			count := map[string]int{}
 			for _, ev := range evaluated {
